@@ -24,7 +24,7 @@ pub fn next_tok() -> u32 {
     NEXT_TOK.fetch_add(1, Ordering::SeqCst)
 }
 pub fn led(k: &'static str, c: &'static str, t: u32, f: u32) {
-    LEDGER.lock().unwrap_or_else(|e| e.into_inner()).push(Led { k, c, t, f });
+    crate::heap::harness(|| LEDGER.lock().unwrap_or_else(|e| e.into_inner()).push(Led { k, c, t, f }));
 }
 pub fn drain_ledger() -> Vec<Led> {
     std::mem::take(&mut *LEDGER.lock().unwrap_or_else(|e| e.into_inner()))
